@@ -20,7 +20,7 @@ from concurrent.futures import ProcessPoolExecutor
 
 import numpy as np
 
-from harness import common, cases, scenarios, trackcheck
+from harness import common, cases, scenarios, trackcheck, drive
 from harness.scenarios import make_core, flow_for, layout_positions
 from harness.cases import fitted_type
 
@@ -193,6 +193,23 @@ def table_traces(args):
     return traces
 
 
+class _CoolMax(drive.Observer):
+    def __init__(self, r):
+        self.r = r
+        self.run = [-np.inf] * len(r.assemblies)
+
+    def _look(self):
+        for i, a in enumerate(self.r.assemblies):
+            self.run[i] = max(self.run[i], float(np.max(
+                a.active_region.temp['coolant_int'])))
+
+    def begin(self, rec):
+        self.rec = rec
+
+    def end_step(self, k):
+        self._look()
+
+
 def analyze_trace(args):
     label, case = args
     dassh = common.import_dassh()
@@ -210,7 +227,12 @@ def analyze_trace(args):
             with open(str(d / 'statonly.csv'), 'w') as fh:
                 fh.write('\n'.join(rows) + '\n')
             inp, r = cases.build(dassh, case, str(d))
-            r.temperature_sweep()
+            # the nominal peak coolant temperature is the largest coolant
+            # temperature seen at the end of any step of the sweep (kept
+            # here, not read back from the solver's own record)
+            ob = _CoolMax(r)
+            with drive.Recorder(dassh, r, [ob]) as rec:
+                rec.sweep()
             res = dassh.hotspot.analyze(r)
             peak_temps, asm_ids = res
             col = {'coolant': None, 'clad_od': 4, 'clad_mw': 5, 'clad_id': 6,
@@ -230,7 +252,7 @@ def analyze_trace(args):
                     row = peak_temps[k][asm_ids[k].index(a.id)]
                     hot.append(qt(row[-1]))
                     if k == 'coolant':
-                        peak.append(qt(a._peak['cool'][0]))
+                        peak.append(qt(ob.run[r.assemblies.index(a)]))
                     else:
                         peak.append(qt(a._peak['pin'][k][0]))
                 ev.append({'e': 'Analyze', 'loc': k, 'hot': hot, 'peak': peak,
@@ -270,6 +292,34 @@ def analyze_cases(rng):
             for h in t['Hotspot'].values():
                 h.update(subfactors='statonly.csv', output_sigma=0)
         out.append((label + '-out0-statonly', c0))
+    # power deposited above the bundles (un-rodded region above the rods
+    # carrying the larger share): the coolant keeps heating there, and the
+    # nominal peak coolant temperature is reached above the bundle
+    from harness.scenarios import add_regions
+    T = add_regions(fitted_type(2, OF), 0.6,
+                    upper=dict(model='simple', vf_coolant=0.4),
+                    rods=[0.0, 0.3])
+    U = add_regions(fitted_type(3, OF), 0.6,
+                    upper=dict(model='6node', vf_coolant=0.4),
+                    rods=[0.0, 0.3])
+    p7 = layout_positions(7)
+    names = ['T', 'U', 'T', 'U', 'T', 'U', 'T']
+    types = {'T': T, 'U': U}
+    lay = [(r_, p_, names[i]) for i, (r_, p_) in enumerate(p7)]
+    flows = [flow_for(types[n], 0.1) * (0.7 + 0.1 * i)
+             for i, (_, _, n) in enumerate(lay)]
+    c = make_core(rng, types, lay, flows, gap_model='flow',
+                  bypass_fraction=0.03, power_order=0, ncell=2,
+                  cell_bounds=[0.0, 0.3, 0.6])
+    for p_ in c['power'].values():
+        for comp in ('pins', 'duct', 'cool'):
+            if p_.get(comp) is not None:
+                p_[comp][-1] = [[2.5 * abs(co[0])] + [0.0 * x for x in co[1:]]
+                                for co in p_[comp][0]]
+    trackcheck.with_pins(c)
+    for t in c['types'].values():
+        t['Hotspot'] = copy.deepcopy(hs)
+    out.append(('heated-above-the-bundles', c))
     return out
 
 
